@@ -227,6 +227,17 @@ def gen_specs(tier, seed_):
         add('epc', name='Amount Test', iban='FR1420041010050500013M02606', amount=am, text='t')
     for enc in list(range(1, 9)) + list(EPC_ENCODINGS) + ['UTF-8', 'ISO-8859-15']:
         add('epc', name='Encoding Test', iban='DE33100205000001194700', amount='9.99', text='plain ascii', encoding=enc)
+    # an explicitly requested character set that cannot represent the data is refused (never silently replaced: the payload announces
+    # the character set it is written in), and one that can is used
+    for enc, field, txt, ok in ((2, 'name', '\u0141ukasz \u017b\xf3\u0142\u0107', False), ('iso-8859-5', 'text', 'J\xf6rg', False), (6, 'name', '\u0418\u0432\u0430\u043d', False),
+                                (2, 'text', '\u20acuro', False), (3, 'name', '\u0141ukasz', True), (6, 'text', '\u0393\u03b9\u03ce\u03c1\u03b3\u03bf\u03c2', True),
+                                ('iso-8859-5', 'name', '\u0418\u0432\u0430\u043d', True), (4, 'reference', 'R\u20ac', False), (8, 'name', '\u20acuro M\xfcller', True),
+                                (2, 'name', 'M\xfcller', True), (5, 'text', 'Gr\xfc\xdfe \u0416', False), (1, 'name', '\u0141\u0416\u0393\u20ac', True)):
+        kw = dict(name='N', iban='DE33100205000001194700', amount='1', text='t', encoding=enc)
+        kw[field] = txt
+        if field == 'reference':
+            kw['text'] = None
+        add('epc', must_refuse=not ok, **kw)
     # limits must be refused
     base = dict(name='N', iban='DE33100205000001194700', amount='1', text='t')
     for bad in (dict(amount='0'), dict(amount='0.009'), dict(amount='1000000000'), dict(amount='-1'), dict(name=''), dict(name='A' * 71), dict(iban='DE33'),
